@@ -221,7 +221,7 @@ fn pattern_texts(specs: &[Vec<u8>]) -> Vec<Vec<u8>> {
 
 /// `<text> <value> <flags> <0|1>` with flags bit0 = pathname (`:(glob)`), bit1 = icase; only patterns
 /// with a wildcard are ever matched with wildmatch
-fn wm_table(repo: &Repo, specs: &[Vec<u8>]) -> Vec<String> {
+fn wm_table(repo: &Repo, specs: &[Vec<u8>], laws: &mut Vec<String>) -> Vec<String> {
     let mut out = Vec::new();
     for t in pattern_texts(specs) {
         if !t.iter().any(|b| b"*?[\\".contains(b)) {
@@ -238,13 +238,23 @@ fn wm_table(repo: &Repo, specs: &[Vec<u8>]) -> Vec<String> {
                 }
                 let v = catch(|| gix_glob::wildmatch(t.as_bstr(), p.as_bstr(), mode)).unwrap_or(false);
                 out.push(format!("{} {} {} {}", hex(&t), hex(p), f, v as u8));
+                // the two properties of wildmatch the theorems assume (WmPrefix, WmSlash)
+                if v {
+                    let k = t.iter().position(|b| b"*?[\\".contains(b)).unwrap_or(t.len());
+                    if f & 2 == 0 && !p.starts_with(&t[..k]) {
+                        laws.push(format!("WmPrefix {:?} matches {:?} (flags {f})", t.as_bstr(), p.as_bstr()));
+                    }
+                    if t.last() == Some(&b'/') && p.last() != Some(&b'/') {
+                        laws.push(format!("WmSlash {:?} matches {:?} (flags {f})", t.as_bstr(), p.as_bstr()));
+                    }
+                }
             }
         }
     }
     out
 }
 
-fn op_of(repo: &Repo, specs: &[Vec<u8>]) -> String {
+fn op_of(repo: &Repo, specs: &[Vec<u8>], laws: &mut Vec<String>) -> String {
     let mut s = format!("select {}", specs.len());
     for sp in specs {
         s.push(' ');
@@ -261,7 +271,7 @@ fn op_of(repo: &Repo, specs: &[Vec<u8>]) -> String {
         s.push(' ');
         s.push_str(&e);
     }
-    let wt = wm_table(repo, specs);
+    let wt = wm_table(repo, specs, laws);
     s.push_str(&format!(" {}", wt.len()));
     for e in wt {
         s.push(' ');
@@ -320,6 +330,8 @@ impl Ctx {
         }
         let gix = parse_obs(spec);
         let git_ok = git_select(self.probe.as_ref().unwrap(), &[spec.to_vec()]).is_ok();
+        // gitoxide refuses some pathspecs only when normalising them (`../x`)
+        let gix_ok = gix_select(self.probe.as_ref().unwrap(), &[spec.to_vec()]).is_ok();
         self.rep.git_checked(1);
         self.rep.case(
             &format!("parse {}", hex(spec)),
@@ -327,13 +339,13 @@ impl Ctx {
             true,
         );
         self.rep.oracle_checked();
-        if (gix != "err") != git_ok {
+        if gix_ok != git_ok {
             self.rep.oracle_failure(
                 &format!("parse {}", hex(spec)),
                 &format!(
                     "pathspec {:?}: gitoxide {}, git {}",
                     spec.as_bstr(),
-                    if gix == "err" { "refuses it" } else { "accepts it" },
+                    if !gix_ok { "refuses it" } else { "accepts it" },
                     if git_ok { "accepts it" } else { "refuses it" }
                 ),
                 &format!("parse {}", hex(spec)),
@@ -342,10 +354,25 @@ impl Ctx {
     }
 
     fn select_case(&mut self, repo: &Repo, specs: &[Vec<u8>], label: Option<&str>) {
+        if let Some(why) = outside_domain(specs) {
+            self.rep.bucket("select:outside-domain");
+            let spec_s = specs.iter().map(|s| format!("{:?}", s.as_bstr())).collect::<Vec<_>>().join(" ");
+            let gix = gix_select(repo, specs);
+            let git = git_select(repo, specs);
+            self.rep.git_checked(1);
+            self.rep.outside_domain(&format!("{why}: [{spec_s}] gitoxide {} git {}", bits(&gix), bits(&git)));
+            return;
+        }
         let gix = gix_select(repo, specs);
         let git = git_select(repo, specs);
         self.rep.git_checked(1);
-        let op = op_of(repo, specs);
+        let mut laws = Vec::new();
+        let op = op_of(repo, specs, &mut laws);
+        for l in laws {
+            // the real matcher breaks a hypothesis of the theorems
+            self.rep.oracle_failure(&format!("wm-law {l}"), &format!("gix_glob::wildmatch violates an assumed law: {l}"), &op);
+        }
+        self.rep.oracle_checked();
         let nontrivial = matches!(&git, Ok(v) if v.iter().any(|b| *b) && v.iter().any(|b| !*b));
         self.rep.case(&op, &format!("gix={} git={}", bits(&gix), bits(&git)), nontrivial);
         self.rep.oracle_checked();
@@ -384,6 +411,85 @@ impl Ctx {
             );
         }
     }
+}
+
+/// Inputs on which `git ls-files` itself is not a usable oracle, or which the theorems exclude:
+/// * an exclude pathspec that does not start with the common directory prefix of the positive ones:
+///   git's `match_pathspec_item` looks at `item->match + prefix` only, i.e. ignores the first bytes of
+///   the exclude pattern or even reads past its end (`git ls-files -- a/b/c ':!x/y/c'` lists nothing,
+///   `-- a/b/c ':!a'` lists a/b/c, `-- d/f.c ':(exclude,top)a'` lists nothing);
+/// * `:(top)` pathspecs whose path part is not normalised (`a/.`, `a//b`): git takes them verbatim,
+///   gitoxide normalises them.
+fn outside_domain(specs: &[Vec<u8>]) -> Option<&'static str> {
+    let parsed: Vec<gix_pathspec::Pattern> = specs
+        .iter()
+        .filter_map(|s| gix_pathspec::parse(s, Default::default()).ok())
+        .collect();
+    if parsed.len() != specs.len() {
+        return None;
+    }
+    use gix_pathspec::MagicSignature as M;
+    for p in &parsed {
+        if p.signature.contains(M::TOP) {
+            let path = p.path();
+            let unclean = path.starts_with(b"/")
+                || path
+                    .split(|b| *b == b'/')
+                    .enumerate()
+                    .any(|(i, c)| (c.is_empty() && !(i == 0 && path.is_empty())) || c == b"." || c == b"..");
+            if unclean {
+                return Some("unnormalised :(top) pathspec (git takes it verbatim)");
+            }
+        }
+    }
+    // dir.c: common_prefix_len()
+    let item_match = |p: &gix_pathspec::Pattern| {
+        let mut m = p.path().to_vec();
+        if p.signature.contains(M::MUST_BE_DIR) {
+            m.push(b'/');
+        }
+        m
+    };
+    let first = item_match(&parsed[0]);
+    let mut max = 0usize;
+    for (n, p) in parsed.iter().enumerate() {
+        if p.signature.contains(M::EXCLUDE) {
+            continue;
+        }
+        let m = item_match(p);
+        let item_len = if p.signature.contains(M::ICASE) {
+            0
+        } else if p.search_mode == gix_pathspec::SearchMode::Literal {
+            m.len()
+        } else {
+            m.iter().position(|b| b"*?[\\".contains(b)).unwrap_or(m.len())
+        };
+        let (mut i, mut len) = (0usize, 0usize);
+        while i < item_len && (n == 0 || i < max) {
+            let c = m[i];
+            if first.get(i) != Some(&c) {
+                break;
+            }
+            if c == b'/' {
+                len = i + 1;
+            }
+            i += 1;
+        }
+        if n == 0 || len < max {
+            max = len;
+            if max == 0 {
+                break;
+            }
+        }
+    }
+    if max > 0
+        && parsed
+            .iter()
+            .any(|p| p.signature.contains(M::EXCLUDE) && !item_match(p).starts_with(&first[..max]))
+    {
+        return Some("exclude pathspec outside git's common prefix (git compares only what follows the prefix length, or reads past the end of the pattern)");
+    }
+    None
 }
 
 fn fnv64(bs: &[u8]) -> u64 {
@@ -674,7 +780,7 @@ fn corpus() -> Vec<(&'static str, Scenario, Vec<Vec<&'static str>>)> {
             vec!["a/f.c", "d/f.c"], vec!["a/b/f.c", "a/b/c"], vec![":(icase)a/f.c", "a/x"], vec!["a/*", "a/b/*"],
             vec![":(exclude)*.c", "a"], vec![":(attr:lang=c)", ":!a"], vec![":(exclude,attr:-lang)a", "a"],
             vec!["e"], vec!["e/"], vec!["e/.x"], vec![":(literal)d*"], vec![":(literal)d*/"], vec!["q p"], vec!["q*"],
-            vec![":(attr:lang=c,attr:doc)x"], vec![":(attr:)x"], vec![":(attr)x"], vec![":(icase,icase)F.c"], vec![":(prefix:0)a"], vec![":(,top)x"], vec![":(,,)x"], vec![":(attr:-lang=c)x"],
+            vec![":(attr:lang=c,attr:doc)x"], vec![":(attr:)x"], vec![":(attr)x"], vec![":(icase,icase)F.c"], vec!["."], vec!["./"], vec!["a/.."], vec![".", ":!a"], vec!["./a"], vec!["a/./x"], vec!["a//x"], vec!["../x"], vec!["a/b/c", ":!a"], vec!["a/x", ":!"], vec![":(top)a/."], vec!["a/b/c", ":!x/y/c"], vec!["a/b/c", ":!a/b"], vec![":(prefix:0)a"], vec![":(,top)x"], vec![":(,,)x"], vec![":(attr:-lang=c)x"],
         ],
     )]
 }
@@ -716,12 +822,12 @@ fn main() {
             cx.select_case(&repo, &specs, Some(&key));
         }
     }
-    let n = args.budget(40, 600);
+    let n = args.budget(30, 150);
     for _ in 0..n {
         let scn = gen_scenario(&mut r, &mut cx.rep);
         let repo = cx.repo(&scn);
         cx.rep.bucket("scenario:random");
-        for _ in 0..12 {
+        for _ in 0..10 {
             let ns = match r.below(10) {
                 0..=4 => 1,
                 5..=7 => 2,
